@@ -290,6 +290,20 @@ def gen_cases(rng, tier):
         v = v.replace(b"\r", b" ").replace(b"\n", b" ")
         m = b"OPTIONS sip:a SIP/2.0\r\n" + name + b": " + v + b"\r\n\r\n"
         cases.append(["hdr-%d" % k, "c02", "hdr", h(m)]); k += 1
+    # grammar-aware placements of multi-byte characters: after a backslash inside quoted strings, after '%', next to every
+    # delimiter of name-addr / parameters / auth headers (byte-indexed slicing of a str panics off a char boundary)
+    frags = ["\\é", "\\𝄞", "é\\", "\\é\\", "%é", "é%4", "%4é", "\"é", "é\"", "é", "𝄞", "\\", "ä€", "\\\u00a0", "\u2028"]
+    templates = ['"X" <sip:a@b>;tag=1', '"aXb" <sip:a@b>', 'X <sip:a@b>', '<sip:X@b>', '<sip:a:X@b>', '<sip:a@b;X=1>', '<sip:a@b;p=X>', '<sip:a@b?h=X>', '<sip:a@b>;p="X"',
+                 '<sip:a@b>;X', 'Digest realm="X", nonce="n"', 'Digest username="X", realm="r", nonce="n", uri="sip:a", response="r"', 'Digest realm="r", nonce="n", qop="X"',
+                 'Digest realm=X', 'SIP/2.0/UDP h;branch=X', 'SIP/2.0/UDP h;received="X"', 'SIP/2.0/X h', 'X/X', '5 (X)', 'a;reason=X', '"X', '"a\\X', 'X', '1 X', 'a@b;to-tag=X;from-tag=1']
+    tnames = [b"From", b"t", b"Contact", b"Route", b"Record-Route", b"Via", b"Authorization", b"WWW-Authenticate", b"Proxy-Authenticate", b"Content-Type", b"Retry-After",
+              b"Subscription-State", b"Replaces", b"CSeq", b"Event", b"Accept"]
+    combos = [(nm, t, f) for nm in tnames for t in templates for f in frags]
+    if tier == "quick":
+        combos = rng.sample(combos, 500) + [(nm, t, f) for nm in (b"From", b"Contact", b"Route") for t in templates[:2] for f in frags[:4]]
+    for nm, t, f in combos:
+        m = b"OPTIONS sip:a SIP/2.0\r\n" + nm + b": " + t.replace("X", f).encode("utf-8") + b"\r\n\r\n"
+        cases.append(["hdr-%d" % k, "c02", "hdr", h(m)]); k += 1
     cases += net_cases(rng, tier, dgs)
     cases += ep_cases(rng, tier)
     return cases
